@@ -280,6 +280,13 @@ def g_schema_set(r):
             s.groups.append(g_ncname(r))
         for _ in range(r.choice([0, 0, 1])):
             s.attr_groups.append(g_ncname(r))
+        if r.random() < 0.3:
+            # name-collision cluster: case variants plus names that already carry the numeric suffixes
+            base = r.choice(["a", "ab", "x_y", "Type", "none", "q"])
+            cluster = [base, r.choice([base.upper(), base.capitalize(), base + "_", base.swapcase()])]
+            cluster += [r.choice([base, base.upper()]) + "_" + str(k) for k in r.sample([1, 2, 3], r.randint(1, 2))]
+            s.complex += [n for n in cluster if ncname_ok(n)]
+            s.features.add("collision-cluster")
         for kind in ("complex", "simple", "elements", "attributes", "groups", "attr_groups"):
             lst = getattr(s, kind)
             setattr(s, kind, list(dict.fromkeys(lst)))
